@@ -185,6 +185,8 @@ func (r *Real) Executable(o model.Op) bool {
 	return true
 }
 
+var churnSeq int
+
 // Exec runs one operation on the real library. ret is the returned Go value (wrapped in a
 // derived struct when the run is in derived mode and the value is a fresh container).
 func (r *Real) Exec(o model.Op) (panicked bool, ret any, pmsg any) {
@@ -233,6 +235,23 @@ func (r *Real) Exec(o model.Op) (panicked bool, ret any, pmsg any) {
 		return false, nil, nil
 	}
 	switch o.Op {
+	case "Churn":
+		// thousands of distinct short strings, keys, numbers and small containers, all dropped again
+		churnSeq++
+		l := at.NewList()
+		ob := at.NewObject()
+		for i := 0; i < 5000; i++ {
+			s := fmt.Sprintf("c%d-%d", churnSeq, i)
+			l.Add(s, i*7919+churnSeq, float64(i)+0.25)
+			ob.Set(s, s)
+			if i%50 == 0 {
+				l.Add(at.NewList(s), at.NewObject(s, i))
+			}
+		}
+		_ = l.String()
+		l.Clone().Equals(l)
+		ob.Clone().Equals(ob)
+		return false, nil, nil
 	case "Text":
 		switch a := r.Fwd[o.R].(type) {
 		case at.List:
